@@ -301,7 +301,7 @@ impl Gen {
             }
             9 => Op::TryReserveFail { n: pre.cap.saturating_sub(pre.len) + 1 + self.rng.usize_below(40), fail_at: 1 + self.rng.below(3) },
             10 => Op::Clear,
-            11 => { let kind = if self.rng.chance(1, 8) && !self.prof.gentle { 3 } else { self.rng.below(3) as u8 }; let calls = self.pick_calls(pre.ents.len()); Op::Iterate { kind, calls, forget: false, fin: if self.rng.chance(2, 3) { 0 } else { 1 + self.rng.below(8) as u8 } } }
+            11 => { let kind = if self.rng.chance(1, 8) && !self.prof.gentle { 3 } else { self.rng.below(3) as u8 }; let calls = self.pick_calls(pre.ents.len()); Op::Iterate { kind, calls, forget: false, fin: if self.rng.chance(2, 3) { 0 } else { 1 + self.rng.below(crate::ops::N_FIN - 1) as u8 } } }
             12 => Op::Debug,
             _ => {
                 match self.rng.below(10) {
@@ -311,7 +311,7 @@ impl Gen {
                         Op::NewCache { max: m, cap0: match self.rng.below(3) { 0 => None, 1 => Some(self.rng.usize_below(8)), _ => Some(pre.cap + self.rng.usize_below(20)) } } }
                     3 | 4 if n_caches > 1 => Op::Switch { idx: self.rng.usize_below(n_caches) },
                     5 if n_caches > 1 => Op::DropCache { idx: self.rng.usize_below(n_caches) },
-                    6 if n_caches > 1 => { let kind = 4 + self.rng.below(3) as u8; let calls = self.pick_calls(pre.ents.len()); Op::Into { kind, calls, forget: false, fin: if self.rng.chance(2, 3) { 0 } else { 1 + self.rng.below(8) as u8 } } }
+                    6 if n_caches > 1 => { let kind = 4 + self.rng.below(3) as u8; let calls = self.pick_calls(pre.ents.len()); Op::Into { kind, calls, forget: false, fin: if self.rng.chance(2, 3) { 0 } else { 1 + self.rng.below(crate::ops::N_FIN - 1) as u8 } } }
                     7 | 8 if n_caches > 1 => Op::CloneFrom { src: (cur + 1 + self.rng.usize_below(n_caches - 1)) % n_caches },
                     _ => if n_caches < 3 { Op::CloneCache } else { Op::Switch { idx: (cur + 1) % n_caches } },
                 }
